@@ -577,9 +577,11 @@ def reorg_inv(F):
 
     judged = 0
     n_paths = 0
-    for A in (True, False):
-        def val(c, A=A):
+    for A, K in ((True, None), (False, None), (False, "import"), (True, "local")):
+        def val(c, A=A, K=K):
             c = peel(c)
+            if K is not None and c.get("k") == "MethodCall" and c.get("method") in ("is_import", "is_local", "is_deleted") and not c.get("args"):
+                return {"is_import": K == "import", "is_local": K == "local", "is_deleted": False}[c["method"]]
             if is_atom_expr(c):
                 return A
             if c.get("k") == "Path" and c.get("res", {}).get("hid") in atom_locals:
@@ -615,7 +617,12 @@ def reorg_inv(F):
                     t_ = str(arm["pat"]) if arm["pat"].get("k") in ("Lit", "Expr") else ""
                     lit = True if "Bool(true)" in t_ else (False if "Bool(false)" in t_ else None)
                     if lit is None or lit == v:
+                        g_ = val(arm["guard"]) if "guard" in arm else True
+                        if g_ is False:
+                            continue        # the arm's guard is known to fail
                         out.append(i)
+                        if g_ is True:
+                            break           # first arm that certainly matches: later arms are not reached
                 return out
             vals = [val(e) for e in sc["elems"]]
             if all(v is None for v in vals):
@@ -624,18 +631,32 @@ def reorg_inv(F):
             for i, arm in enumerate(m["arms"]):
                 p_ = arm["pat"]
                 ok_ = True
+                sure = True
                 if p_.get("k") == "Tuple":
                     for v, sub in zip(vals, p_["pats"]):
-                        if v is None:
-                            continue
                         lit = None
                         if sub.get("k") in ("Lit", "Expr"):
                             t_ = str(sub)
                             lit = True if "Bool(true)" in t_ else (False if "Bool(false)" in t_ else None)
+                            if lit is None:
+                                sure = False
+                        elif sub.get("k") not in ("Wild", "Binding"):
+                            sure = False
+                        if v is None:
+                            if lit is not None:
+                                sure = False
+                            continue
                         if lit is not None and lit != v:
                             ok_ = False
+                elif p_.get("k") not in ("Wild", "Binding"):
+                    sure = False
                 if ok_:
+                    g_ = val(arm["guard"]) if "guard" in arm else True
+                    if g_ is False:
+                        continue
                     out.append(i)
+                    if sure and g_ is True:
+                        break               # first arm that certainly matches
             return out
 
         seen_paths = set()
@@ -643,6 +664,20 @@ def reorg_inv(F):
             if st not in ("fall", "cont"):
                 continue
             seen_paths.add(ev)
+        if K is not None:
+            # kind-specific clause: a live import met outside the original import prefix always moves the insertion slot on
+            # by one (whether or not the element itself has to be moved); a live local met inside the prefix always gives its
+            # slot back
+            want_k = 1 if K == "import" else -1
+            for ev in sorted(seen_paths):
+                d_k = ev.count("imp+1") - ev.count("imp-1")
+                okk = d_k == want_k
+                r.ob(okk, {"case": "%s import prefix, live %s" % ("inside" if A else "outside", K), "Δnum_imported": d_k})
+                if not okk:
+                    r.violate("%s | %s prefix live %s | Δimp=%d" % (fn["path"], "inside" if A else "outside", K, d_k), F.loc(fn),
+                              "for a live %s found %s the original import prefix a path changes num_imported by %d (needs %d): the slot where the next converted/added import is placed is off by one, so the function order no longer matches the import order" % (
+                                  K, "inside" if A else "outside", d_k, want_k))
+            continue
         n_paths += len(seen_paths)
         for ev in sorted(seen_paths):
             ops = list(ev)
@@ -1150,6 +1185,32 @@ def fresh_ids(F):
         r.ob(ok, {"import adder": fn["path"], "asserts id == next_id()": ok})
         if not ok:
             r.violate("%s | id assertion" % fn["path"], F.loc(fn), "%s::%s no longer asserts that the id chosen by Module::add_import equals next_id(): a wrong id would be stored silently" % (adt, name))
+    # raw pushes: an element enters an id-addressed collection only through code that gives it the id `len()` — the adders
+    # above — or through the ReIndexable::push used by reorganise_generic (which re-appends an element it has just removed)
+    OWN = {"functions": "Functions", "globals": "ModuleGlobals", "memories": "Memories"}
+    n_raw = 0
+    for fn_ in F.fns:
+        if fn_.get("body") is None:
+            continue
+        for c in walk(fn_["body"]):
+            if not (c.get("k") == "MethodCall" and c["method"] == "push"):
+                continue
+            rv = peel(c["recv"])
+            if not (rv.get("k") == "Field" and rv["name"] in OWN and (rv.get("base_ty") or "").replace("&mut ", "").replace("&", "").split("<")[0].endswith("::" + OWN[rv["name"]])):
+                continue
+            n_raw += 1
+            if (fn_.get("impl_trait") or "").endswith("ReIndexable") and fn_["name"] == "push":
+                r.ob(True)
+                continue
+            base = place_path(rv["base"]) or "?"
+            reads_len = [x for x in walk(fn_["body"]) if x.get("k") == "MethodCall" and x["method"] in ("len", "next_id")
+                         and ((place_path(x["recv"]) or "") in (base + "." + rv["name"], base)) and uncond_before(fn_["body"], x, c)[0]]
+            ok = bool(reads_len)
+            r.ob(ok, {"raw push onto": "%s.%s" % (base, rv["name"]), "in": fn_["path"], "id taken from len() first": ok})
+            if not ok:
+                r.violate("%s | raw push onto %s" % (fn_["path"], rv["name"]), F.loc(fn_, c),
+                          "%s pushes onto `%s` without taking the element's id from the collection's length first: whatever id the element carries is not its position, and every lookup by id (and the old→new id map built at encode) is off" % (fn_["name"], rv["name"]))
+    r.count("raw_pushes", n_raw)
     return r
 
 
